@@ -462,7 +462,7 @@ impl Scenario for C16Includes {
         for (idx, call) in calls.iter().enumerate().take(max_calls) {
             let kinds: Vec<Fault> = match call.kind {
                 CallKind::Open => vec![Fault::OpenErr(ENOENT), Fault::OpenErr(EACCES), Fault::OpenErr(EIO), Fault::OpenErr(EMFILE)],
-                CallKind::Meta => vec![Fault::MetaErr, Fault::MetaSize(0), Fault::MetaSize(1), Fault::MetaSize(2), Fault::MetaSize(3)],
+                CallKind::Meta => vec![Fault::MetaErr, Fault::MetaSize(0), Fault::MetaSize(1), Fault::MetaSize(2), Fault::MetaSize(3), Fault::MetaSize(4)],
                 CallKind::Read => vec![Fault::ReadShort(1), Fault::ReadShort(7), Fault::ReadEintr, Fault::ReadEio],
                 CallKind::Exists => {
                     if has_decoys {
@@ -563,7 +563,7 @@ impl Scenario for C16Includes {
             for idx in [a, b] {
                 let f = match calls[idx].kind {
                     CallKind::Open => Fault::OpenErr(*cx.tape.pick(&[ENOENT, EACCES, EIO])),
-                    CallKind::Meta => Fault::MetaSize(cx.tape.draw(4) as u8),
+                    CallKind::Meta => Fault::MetaSize(cx.tape.draw(5) as u8),
                     CallKind::Read => match cx.tape.draw(3) {
                         0 => Fault::ReadEintr,
                         1 => Fault::ReadShort(1 + cx.tape.draw(5) as usize),
